@@ -808,6 +808,9 @@ pub struct ForeignOpts {
     /// gzip only: pad leaf streams above 32 KiB (FEXTRA header field) so that their length is 32768*k + 4,
     /// i.e. only trailer bytes lie behind a 32 KiB chunk boundary, and store the next leaf directly behind
     pub align_gzip_leaves: bool,
+    /// keep the metadata small (workloads that open the same archive hundreds of times: the library
+    /// parses metadata byte-wise through the codec, which costs ~100 ms per open for 300 KiB)
+    pub small_metadata: bool,
 }
 
 /// Independent spec-level archive writer. Produces bytes + ground truth.
@@ -962,7 +965,13 @@ pub fn gen_foreign(rng: &mut Rng, o: &ForeignOpts) -> Foreign {
         root = enc(&level, rng);
     }
     // ---- metadata
-    let meta = if o.empty_metadata { Map::new() } else { gen_metadata(rng) };
+    let meta = if o.empty_metadata {
+        Map::new()
+    } else if o.small_metadata {
+        json_object(rng, 3, 5)
+    } else {
+        gen_metadata(rng)
+    };
     let meta_bytes: Vec<u8> = if let Some(raw) = &o.raw_metadata {
         R::codec_compress(o.codec, raw, &p).expect("codec")
     } else if o.empty_metadata {
@@ -1097,5 +1106,6 @@ pub fn gen_foreign_opts(rng: &mut Rng, codec: u8, max_entries: usize) -> Foreign
         prefix_entries: rng.chance(1, 5),
         leaf_entries: None,
         align_gzip_leaves: false,
+        small_metadata: false,
     }
 }
